@@ -7,11 +7,6 @@ package pcache
 // ---------------------------------------------------------------------------
 // C17: find results expand extended providers per the IPNI rules, for any record
 
-// Used at call sites only in C17 (its body belongs to C06/C07). Data-structure
-// invariant of the published maps: a non-nil entry carries its provider record.
-//@ func (*ProviderCache).getReadOnly
-//@   nobody
-//@   ensures result0 != nil ==> result0.provider != nil
 
 // md(list, i): the i-th metadata override, absent when the list is shorter.
 // skip / eff are the two IPNI rules, written from the property statement:
@@ -23,8 +18,9 @@ package pcache
 // No relation between the provider and metadata list lengths is required:
 // records come from remote indexers.
 //@ func (*ProviderCache).GetResults
-//@   property C17
-//@   requires pc != nil
+//@   property C17 C07
+//@   requires pcOK(pc) && ctx != nil && !held(pc.writeLock)
+//@   ensures-local count("call:getReadOnly") == 1
 //@   ensures result1 == nil && result0 != nil ==> len(result0) >= 1 && result0[0].Provider == &rpi.provider.AddrInfo && result0[0].Metadata == metadata && result0[0].ContextID == ctxID
 //@   loop 1: invariant len(results) >= 1 && results[0].Provider == &rpi.provider.AddrInfo && results[0].Metadata == metadata && results[0].ContextID == ctxID
 //@   loop 2: invariant len(results) >= 1 && results[0].Provider == &rpi.provider.AddrInfo && results[0].Metadata == metadata && results[0].ContextID == ctxID
@@ -87,8 +83,78 @@ package pcache
 //@   ensures-local count("atomic.store:read") <= 1
 //@   at call Store#1: assert isfresh(arg1)
 //@   at call Store#2: assert isfresh(arg1)
+//@   at call needMerge#1: assume arg0 < 2147483648 && arg1 < 2147483648
 //@   loop 1: invariant pcOK(pc) && held(pc.writeLock) && pc.seq == seq && seq != old(pc.seq) && rangeindex < len(pc.sources)
 //@   loop 2: invariant pcOK(pc) && held(pc.writeLock) && pc.seq == seq && seq != old(pc.seq) && rangeindex < len(fetchedInfos) && forall(j, 0, len(fetchedInfos), fetchedInfos[j] != nil)
+// merge rule, per fetched record (from the property: the record bearing the most recent
+// advertisement time wins; a record seen again is marked present and its expiry disarmed):
+//@   loop 2: iteration ghost had := has(pc.write, fetchedInfos[rangeindex + 1].AddrInfo.ID)
+//@   loop 2: iteration ghost lu0 := pc.write[fetchedInfos[rangeindex + 1].AddrInfo.ID].lastUpdate
+//@   loop 2: iteration ghost p0 := pc.write[fetchedInfos[rangeindex + 1].AddrInfo.ID].provider
+//@   loop 2: iteration ghost us0 := pc.write[fetchedInfos[rangeindex + 1].AddrInfo.ID].updateSeq
+//@   loop 2: iteration ensures has(pc.write, fetchedInfos[rangeindex].AddrInfo.ID) && pc.write[fetchedInfos[rangeindex].AddrInfo.ID].seq == seq
+//@   loop 2: iteration ensures !had ==> pc.write[fetchedInfos[rangeindex].AddrInfo.ID].provider == fetchedInfos[rangeindex] && pc.write[fetchedInfos[rangeindex].AddrInfo.ID].updateSeq == seq
+//@   loop 2: iteration ensures had ==> pc.write[fetchedInfos[rangeindex].AddrInfo.ID].expiresAt == zero("time.Time") && pc.write[fetchedInfos[rangeindex].AddrInfo.ID].lastUpdate >= lu0
+//@   loop 2: iteration ensures had ==> (pc.write[fetchedInfos[rangeindex].AddrInfo.ID].provider == p0 && pc.write[fetchedInfos[rangeindex].AddrInfo.ID].updateSeq == us0 && pc.write[fetchedInfos[rangeindex].AddrInfo.ID].lastUpdate == lu0) || (pc.write[fetchedInfos[rangeindex].AddrInfo.ID].provider == fetchedInfos[rangeindex] && pc.write[fetchedInfos[rangeindex].AddrInfo.ID].updateSeq == seq && pc.write[fetchedInfos[rangeindex].AddrInfo.ID].lastUpdate > lu0)
 //@   loop 3: invariant pcOK(pc) && held(pc.writeLock) && pc.seq == seq && seq != old(pc.seq) && updates != nil && isfresh(updates)
 //@   loop 4: invariant pcOK(pc) && held(pc.writeLock) && pc.seq == seq && seq != old(pc.seq) && updates != nil && isfresh(updates)
 //@   loop 5: invariant pcOK(pc) && held(pc.writeLock) && pc.seq == seq && seq != old(pc.seq) && updates != nil && isfresh(updates) && m != nil && isfresh(m)
+
+// fetchMissing (C07): lock balance and guarded access as for Refresh; (C06):
+// a provider that already has an entry in the write map (including a negative
+// one) is answered from the published snapshot without querying any source.
+//@ func (*ProviderCache).fetchMissing
+//@   property C06 C07
+//@   requires pcOK(pc) && ctx != nil && !held(pc.writeLock)
+//@   modifies mapof(pc.write), pc.read, objects(cacheInfo)
+//@   at call Fetch#1: assert !old(has(pc.write, pid)) || count("call:Errorw") >= 1
+//@   at call needMerge#1: assume arg0 < 2147483648 && arg1 < 2147483648
+//@   ensures-local count("atomic.store:read") <= 1
+//@   at call Store#1: assert isfresh(arg1)
+//@   at call Store#2: assert isfresh(arg1)
+//@   loop 1: invariant pcOK(pc) && held(pc.writeLock) && cinfo != nil && isfresh(cinfo) && rangeindex < len(pc.sources)
+//@   loop 2: invariant pcOK(pc) && held(pc.writeLock) && updates != nil && isfresh(updates)
+//@   loop 3: invariant pcOK(pc) && held(pc.writeLock) && updates != nil && isfresh(updates) && m != nil && isfresh(m)
+
+// Readers (C07): one atomic load per operation; a key present in the loaded
+// snapshot is answered without touching the lock or any source.
+// Data-structure invariant of the published maps (ASSUMED here: it is a fact
+// about every snapshot ever stored, i.e. about all earlier calls): a non-nil
+// entry carries its provider record.
+//@ func (*ProviderCache).getReadOnly
+//@   property C07
+//@   requires pcOK(pc) && ctx != nil && !held(pc.writeLock)
+//@   ghost hit := false
+//@   ensures-assumed result0 != nil ==> result0.provider != nil
+//@   ensures-local count("atomic.load:read") == 1 || count("call:loadReadOnly") == 1
+
+//@ func (*ProviderCache).loadReadOnly
+//@   property C07
+//@   pure
+//@   requires pc != nil
+//@   ensures-local count("atomic.load:read") == 1
+
+//@ func (*ProviderCache).Get
+//@   property C07
+//@   requires pcOK(pc) && ctx != nil && !held(pc.writeLock)
+//@   ensures-local count("call:getReadOnly") == 1
+
+//@ func (*ProviderCache).List
+//@   property C07
+//@   requires pc != nil
+//@   ensures-local count("call:loadReadOnly") == 1 && count("call:fetchMissing") == 0
+//@   loop 1: invariant m != nil && isfresh(m)
+//@   loop 2: invariant m != nil && isfresh(m)
+//@   loop 3: invariant 0 <= i && i == visited(m) && len(pinfos) == len(m) && m != nil
+
+//@ func (*ProviderCache).Len
+//@   property C07
+//@   requires pc != nil
+//@   ensures-local count("call:loadReadOnly") == 1 && count("call:fetchMissing") == 0
+
+// needMerge(u, m) <==> u*(u+1) > 2*m, without overflow for sizes that fit in memory.
+//@ func needMerge
+//@   property C06
+//@   pure
+//@   requires 0 <= u && u < 2147483648 && 0 <= m && m < 2147483648
+//@   ensures result <==> u * (u + 1) > 2 * m
